@@ -92,6 +92,9 @@ def run_cli(repo: Repo, options: Dict[str, Any], stdin: bytes = b"", files: Dict
         if any(ch in mode for ch in "wax+"):
             if path not in written or "w" in mode:
                 written[path] = io.BytesIO() if "b" in mode else _KeepStringIO()
+            if isinstance(written[path], _KeepStringIO):
+                # a text file encodes what is written to it: with the encoding / error handler given, UTF-8 strict otherwise
+                written[path].encoding_, written[path].errors_ = k.get("encoding") or "utf-8", k.get("errors") or "strict"
             return written[path]
         raise PyRaise("FileNotFoundError")
 
@@ -122,17 +125,29 @@ def run_cli(repo: Repo, options: Dict[str, Any], stdin: bytes = b"", files: Dict
 
 
 class _KeepStringIO(io.StringIO):
-    """A text file opened for appending: closing it (the `with` block ending) keeps what was written readable."""
+    """A text file opened for appending: closing it (the `with` block ending) keeps what was written readable.  Like a real text
+    file it encodes what is written (text the codec cannot represent is an error at the write)."""
+
+    encoding_, errors_ = "utf-8", "strict"
 
     def close(self):
         pass
+
+    def write(self, s):
+        try:
+            s.encode(self.encoding_, self.errors_)
+        except UnicodeEncodeError:
+            raise PyRaise("UnicodeEncodeError")
+        except LookupError:
+            raise PyRaise("LookupError")
+        return super().write(s)
 
 
 def base_options():
     return {"PICKLE_FILE": "-", "inject": None, "inject_target": 0, "create": None, "run_last": False, "replace_result": False, "trace": False, "check_safety": False, "json_output": None, "print_results": False, "version": False}
 
 
-def inject_world(repo: Repo, stack, k: int, run_last: bool, replace: bool, from_file: bool) -> List[Tuple[str, str]]:
+def inject_world(repo: Repo, stack, k: int, run_last: bool, replace: bool, from_file: bool, payload: str = "print('hi')") -> List[Tuple[str, str]]:
     from .props.c06 import _fresh_objeval
 
     labels = [l for l, _ in stack]
@@ -140,8 +155,8 @@ def inject_world(repo: Repo, stack, k: int, run_last: bool, replace: bool, from_
     n = len(parts)
     whole = b"".join(parts)
     opts = base_options()
-    opts.update({"inject": "print('hi')", "inject_target": k, "run_last": run_last, "replace_result": replace})
-    where = f"stack {labels}, --inject-target {k}{' --run-last' if run_last else ''}{' --replace-result' if replace else ''}, input from {'a file' if from_file else 'standard input'}"
+    opts.update({"inject": payload, "inject_target": k, "run_last": run_last, "replace_result": replace})
+    where = f"stack {labels}, --inject {payload!r} --inject-target {k}{' --run-last' if run_last else ''}{' --replace-result' if replace else ''}, input from {'a file' if from_file else 'standard input'}"
     if from_file:
         opts["PICKLE_FILE"] = "in.pkl"
         rc, out, _txt = run_cli(repo, opts, files={"in.pkl": whole})
@@ -175,6 +190,18 @@ def inject_world(repo: Repo, stack, k: int, run_last: bool, replace: bool, from_
         except Exception as ex:
             devs.append((f"stack-unreadable-from-file:{type(ex).__name__}", f"{where}: reading the emitted stack from a file object fails at pickle #{i} ({labels[i]}): {type(ex).__name__}: {str(ex)[:60]}"))
             break
+        if i == k:
+            # the target: the source given to --inject reaches eval, as the text it is, exactly once more than in the input
+            evals = [e for e in V.CALL_LOG if e[0] == ("builtins", "eval")]
+            try:
+                V.CALL_LOG.clear()
+                V._StandInUnpickler(io.BytesIO(parts[i])).load()
+                before = [e for e in V.CALL_LOG if e[0] == ("builtins", "eval")]
+            except Exception:
+                before = []
+            new = [e for e in evals if e not in before] if len(evals) != len(before) + 1 else [e for e in evals if e not in before][:1] or evals[-1:]
+            if len(evals) != len(before) + 1 or not new or len(new[0][1]) != 1 or type(new[0][1][0]) is not str or new[0][1][0] != payload:
+                devs.append(("payload-not-evaluated-as-given", f"{where}: reading pickle #{i} back, eval is called {len(evals)} time(s) with {[e[1] for e in evals][:3]!r}; the input's pickle calls it {len(before)} time(s) and the injection adds one call with the source text {payload!r}"))
         if i != k:
             try:
                 V.CALL_LOG.clear()
@@ -191,7 +218,7 @@ def inject_world(repo: Repo, stack, k: int, run_last: bool, replace: bool, from_
     pk = repo.cls("fickling.fickle.Pickled")
     try:
         P = oe.ref(pk).sa_attr("load")(parts[k])
-        P.sa_attr("insert_python_eval")("print('hi')", run_first=not run_last, use_output_as_unpickle_result=replace)
+        P.sa_attr("insert_python_eval")(payload, run_first=not run_last, use_output_as_unpickle_result=replace)
         want = P.sa_attr("dumps")()
     except PyRaise as pe:
         return devs + [(f"helper-raises:{pe.name}", f"{where}: the injection helper raises {pe.name} on the target alone")]
@@ -294,6 +321,8 @@ def explore(repo: Repo, tier: str):
     stacks += [[ps[1], ps[1]], [ps[5], ps[1], ps[5]]]
     if tier == "thorough":
         stacks += [list(c) for c in itertools.permutations(ps, 3)][::7] + [[_big(), ps[2], _big()]]
+    sparse = ("list-with-a-lone-BINPUT-2@2 (sparse memo)", b"\x80\x02]q\x02(K\x01K\x02e.")
+    stacks += [[sparse], [ps[0], sparse]]
     items = []
     for st in stacks:
         for k in range(len(st) + 1):
@@ -301,6 +330,10 @@ def explore(repo: Repo, tier: str):
                 for rr in (False, True):
                     for ff in (False, True):
                         items.append(("inject", (st, k, rl, rr, ff)))
+    # sources that look like something else than code: a number, text that needs escaping, non-ASCII
+    for pl in ("42", "1e3", "-7", "'a\\nb' + \"q\"", "print('h\xe9')", "x" * 300):
+        for rl, rr in ((False, False), (True, True)):
+            items.append(("inject", ([ps[1]], 0, rl, rr, True, pl)))
         items.append(("decompile", (st, False, False)))  # (--trace interleaves its own report with the programs: not claimed)
         items.append(("decompile", (st, False, True)))
     jobs = min(int(os.environ.get("SA_JOBS", "16")), os.cpu_count() or 1)
@@ -391,7 +424,15 @@ def _verdict_pickles():
     return [
         ("an int", pickle.dumps(5, 2)), ("an OrderedDict", pickle.dumps(collections.OrderedDict(a=1), 2)), ("a non-standard global", b"cnot_stdlib_module\nThing\n."),
         ("os.system('id')", b"cos\nsystem\n(S'id'\ntR."), ("eval('1')", b"c__builtin__\neval\n(S'1'\ntR."),
+        ("a global whose module name contains a lone surrogate (STACK_GLOBAL)", _surrogate_global()),
+        ("data only, with a second PROTO", b"\x80\x02\x80\x03K\x01."),
+        ("a protocol-0 os.system by INST", b"(S'id'\nios\nsystem\n."),
     ]
+
+
+def _surrogate_global() -> bytes:
+    mod = "m\udc80dule".encode("utf-8", "surrogatepass")
+    return b"\x80\x04\x8c" + bytes([len(mod)]) + mod + b"\x8c\x05thing\x93."
 
 
 def explore_safety(repo: Repo, tier: str):
@@ -406,9 +447,10 @@ def explore_safety(repo: Repo, tier: str):
     global _CREPO
     _CREPO = repo
     ps = _verdict_pickles()
-    stacks = [[p] for p in ps] + [list(c) for c in itertools.permutations(ps, 2)] + [[ps[0], ps[0], ps[0]], [ps[0], ps[3], ps[0]], [ps[4], ps[0], ps[1]]]
+    stacks = [[p] for p in ps] + [list(c) for c in itertools.permutations(ps[:5], 2)] + [[ps[0], ps[0], ps[0]], [ps[0], ps[3], ps[0]], [ps[4], ps[0], ps[1]]]
+    stacks += [[ps[0], x] for x in ps[5:]] + [[x, ps[0]] for x in ps[5:]]
     if tier == "thorough":
-        stacks += [list(c) for c in itertools.permutations(ps, 3)][::2]
+        stacks += [list(c) for c in itertools.permutations(ps[:5], 3)][::2] + [list(c) for c in itertools.permutations(ps[5:], 2)]
     items = [("safety", (st, pr)) for st in stacks for pr in (False, True)]
     jobs = min(int(os.environ.get("SA_JOBS", "16")), os.cpu_count() or 1)
     chunks = [items[i::jobs] for i in range(jobs)]
